@@ -150,6 +150,7 @@ Qed.
 
 (* ====================================================================== *)
 Section WithOracle.
+  Variable C : mcfg.
   Variable O : oracle.
 
   (* ---------- npm ---------- *)
@@ -230,7 +231,7 @@ Section WithOracle.
 
     (* the order sortNPMVersions produces does not depend on the order of its input *)
     Lemma sort_npm_perm_unique l l' :
-      NoDup (map ver l) -> Permutation l l' -> sort_npm O l = sort_npm O l'.
+      NoDup (map ver l) -> Permutation l l' -> sort_npm C O l = sort_npm C O l'.
     Proof. intros; unfold sort_npm. f_equal. apply isort_npm_perm_unique; auto. Qed.
 
     (* any other correct sorting algorithm (pdqsort on more than 12 elements) agrees *)
@@ -245,42 +246,42 @@ Section WithOracle.
     Qed.
   End NpmLaws.
 
-  Lemma reposition_perm base : Permutation (reposition O base) base.
+  Lemma reposition_perm base : Permutation (reposition C O base) base.
   Proof.
     unfold reposition.
-    destruct (split_last (has_latest) base) as [[[pre y] post]|] eqn:E; auto.
+    destruct (split_last (has_latest C) base) as [[[pre y] post]|] eqn:E; auto.
     destruct (is_pre O y && negb (forallb (is_pre O) base)); auto.
     apply split_last_some in E as (-> & _ & _).
     apply Permutation_app_head. symmetry. apply Permutation_cons_append.
   Qed.
 
-  Lemma sort_npm_perm l : Permutation (sort_npm O l) l.
+  Lemma sort_npm_perm l : Permutation (sort_npm C O l) l.
   Proof. unfold sort_npm. rewrite reposition_perm. apply isort_perm. Qed.
 
   (* what the repositioning does, case by case *)
   Lemma reposition_no_latest base :
-    forallb (fun v => negb (has_latest v)) base = true -> reposition O base = base.
+    forallb (fun v => negb (has_latest C v)) base = true -> reposition C O base = base.
   Proof.
     intros H. unfold reposition.
-    destruct (split_last has_latest base) as [[[pre y] post]|] eqn:E; auto.
+    destruct (split_last (has_latest C) base) as [[[pre y] post]|] eqn:E; auto.
     apply split_last_some in E as (-> & Hy & _).
     rewrite forallb_app in H. simpl in H. rewrite Hy in H. simpl in H.
     rewrite andb_false_r in H. discriminate.
   Qed.
 
   Lemma reposition_latest base pre y post :
-    base = pre ++ y :: post -> has_latest y = true ->
-    forallb (fun v => negb (has_latest v)) post = true ->
-    reposition O base =
+    base = pre ++ y :: post -> has_latest C y = true ->
+    forallb (fun v => negb (has_latest C v)) post = true ->
+    reposition C O base =
       if is_pre O y && existsb (fun v => negb (is_pre O v)) base then base else pre ++ post ++ [y].
   Proof.
     intros -> Hy Hpost. unfold reposition.
-    assert (E : split_last has_latest (pre ++ y :: post) = Some (pre, y, post)).
+    assert (E : split_last (has_latest C) (pre ++ y :: post) = Some (pre, y, post)).
     { clear -Hy Hpost. induction pre as [|x t IH]; simpl.
-      - assert (N : split_last has_latest post = None).
+      - assert (N : split_last (has_latest C) post = None).
         { clear -Hpost. induction post as [|z t IH]; simpl in *; auto.
           apply andb_true_iff in Hpost as [Hz Ht]. rewrite (IH Ht).
-          destruct (has_latest z); [discriminate|auto]. }
+          destruct (has_latest C z); [discriminate|auto]. }
         rewrite N, Hy. auto.
       - rewrite IH. auto. }
     rewrite E.
@@ -292,16 +293,39 @@ Section WithOracle.
 
   (* ---------- Maven, PyPI and the other systems ---------- *)
   Definition gen_parses (sys : N) (v : version) : Prop := o_parses O sys (ver v) = true.
-  Definition gen_cmp (sys : N) (a b : version) : Z := o_compare O sys (ver a) (ver b).
+  (* with the tie-break: semver, then the spelling *)
+  Definition gen_cmp (sys : N) (a b : version) : Z :=
+    if tie_break C
+    then lex (fun x y => o_compare O sys (ver x) (ver y)) (fun x y => bytes_compare (ver x) (ver y)) a b
+    else o_compare O sys (ver a) (ver b).
   Definition gen_le (sys : N) (a b : version) : Prop := gen_cmp sys a b <= 0.
 
   Lemma gen_less_cmp sys a b : gen_parses sys a -> gen_parses sys b ->
-    gen_less O sys a b = (gen_cmp sys a b <? 0).
-  Proof. unfold gen_less, gen_parses, gen_cmp. intros -> ->. auto. Qed.
+    gen_less C O sys a b = (gen_cmp sys a b <? 0).
+  Proof.
+    unfold gen_less, gen_parses, gen_cmp, lex. intros -> ->. simpl.
+    destruct (tie_break C); simpl; auto.
+    destruct (Z.eqb_spec (o_compare O sys (ver a) (ver b)) 0); auto.
+  Qed.
+
+  Lemma gen_cmp_ver sys a b a' b' : ver a = ver a' -> ver b = ver b' -> gen_cmp sys a b = gen_cmp sys a' b'.
+  Proof. unfold gen_cmp, lex. intros -> ->. reflexivity. Qed.
+
+  (* ascending in the refined order is ascending by semver *)
+  Lemma gen_le_semver sys a b : gen_le sys a b -> o_compare O sys (ver a) (ver b) <= 0.
+  Proof.
+    unfold gen_le, gen_cmp, lex. destruct (tie_break C); auto.
+    destruct (Z.eqb_spec (o_compare O sys (ver a) (ver b)) 0); lia.
+  Qed.
 
   (* no two different spellings compare equal (the side condition of F-C12-1) *)
   Definition no_equal_distinct (sys : N) (l : list version) : Prop :=
     forall a b, In a l -> In b l -> o_compare O sys (ver a) (ver b) = 0 -> ver a = ver b.
+
+  (* the comparator of SortVersions separates the versions of l: always once it breaks ties
+     by the strings, otherwise under the side condition *)
+  Definition separated (sys : N) (l : list version) : Prop :=
+    tie_break C = true \/ no_equal_distinct sys l.
 
   Section GenLaws.
     Variable sys : N.
@@ -310,34 +334,41 @@ Section WithOracle.
     Lemma gen_cmp_laws : cmp_laws (gen_parses sys) (gen_cmp sys).
     Proof.
       apply core_laws. unfold gen_cmp, gen_parses.
-      apply (core_pullback ver _ (fun s => o_parses O sys s = true)); auto.
-      apply laws_core; auto.
+      assert (H1 : cmp_core (fun v : version => o_parses O sys (ver v) = true)
+                            (fun x y => o_compare O sys (ver x) (ver y))).
+      { apply (core_pullback ver _ (fun s => o_parses O sys s = true)); auto. apply laws_core; auto. }
+      destruct (tie_break C); auto.
+      apply core_lex; auto.
+      apply (core_pullback ver _ (fun _ => True)); auto. apply bytes_core.
     Qed.
 
-    Lemma isort_gen_sorted l : Forall (gen_parses sys) l -> StronglySorted (gen_le sys) (isort (gen_less O sys) l).
+    Lemma isort_gen_sorted l : Forall (gen_parses sys) l -> StronglySorted (gen_le sys) (isort (gen_less C O sys) l).
     Proof.
-      intros H. apply (isort_sorted (gen_parses sys) (gen_cmp sys) (gen_less O sys) gen_cmp_laws); auto.
+      intros H. apply (isort_sorted (gen_parses sys) (gen_cmp sys) (gen_less C O sys) gen_cmp_laws); auto.
       intros; apply gen_less_cmp; auto.
     Qed.
 
-    Lemma gen_separates l : NoDup (map ver l) -> no_equal_distinct sys l ->
+    Lemma gen_separates l : NoDup (map ver l) -> separated sys l ->
       forall a b, In a l -> In b l -> gen_cmp sys a b = 0 -> a = b.
     Proof.
-      intros ND NE a b Ha Hb E. eapply NoDup_map_inj_in; eauto.
+      intros ND Sep a b Ha Hb E. eapply NoDup_map_inj_in; eauto.
+      unfold gen_cmp in E. destruct (tie_break C) eqn:T.
+      - apply lex_eq0 in E as [_ E]. apply bytes_compare_eq; auto.
+      - destruct Sep as [Sep|Sep]; [congruence | auto].
     Qed.
 
     Lemma isort_gen_perm_unique l l' :
-      Forall (gen_parses sys) l -> NoDup (map ver l) -> no_equal_distinct sys l ->
-      Permutation l l' -> isort (gen_less O sys) l = isort (gen_less O sys) l'.
+      Forall (gen_parses sys) l -> NoDup (map ver l) -> separated sys l ->
+      Permutation l l' -> isort (gen_less C O sys) l = isort (gen_less C O sys) l'.
     Proof.
       intros HP ND NE Hp.
-      apply (isort_perm_unique (gen_parses sys) (gen_cmp sys) (gen_less O sys) gen_cmp_laws); auto.
+      apply (isort_perm_unique (gen_parses sys) (gen_cmp sys) (gen_less C O sys) gen_cmp_laws); auto.
       - intros; apply gen_less_cmp; auto.
       - apply gen_separates; auto.
     Qed.
 
     Lemma gen_sorted_unique l1 l2 :
-      Forall (gen_parses sys) l1 -> NoDup (map ver l1) -> no_equal_distinct sys l1 ->
+      Forall (gen_parses sys) l1 -> NoDup (map ver l1) -> separated sys l1 ->
       StronglySorted (gen_le sys) l1 -> StronglySorted (gen_le sys) l2 -> Permutation l1 l2 -> l1 = l2.
     Proof.
       intros HP ND NE S1 S2 Hp.
@@ -347,7 +378,7 @@ Section WithOracle.
   End GenLaws.
 
   (* ---------- sort_versions as a whole ---------- *)
-  Lemma sort_versions_perm l : Permutation (sort_versions O l) l.
+  Lemma sort_versions_perm l : Permutation (sort_versions C O l) l.
   Proof.
     unfold sort_versions. destruct l as [|v0 t]; auto.
     destruct (N.eqb (v_sys v0) sys_npm); [apply sort_npm_perm | apply isort_perm].
@@ -361,20 +392,27 @@ Section WithOracle.
     else bytes_eqb req (ver v).
 
   Lemma match_npm_spec req l :
-    match_npm O req l =
-      if o_constraint O sys_npm req then filter (satisfies sys_npm req) (sort_npm O l)
-      else firstn 1 (filter (satisfies sys_npm req) (sort_npm O l)).
+    match_npm C O req l =
+      if o_constraint O sys_npm req then filter (satisfies sys_npm req) (sort_npm C O l)
+      else firstn 1 (filter (satisfies sys_npm req) (sort_npm C O l)).
   Proof.
     unfold match_npm, satisfies. rewrite N.eqb_refl.
     destruct (o_constraint O sys_npm req); auto.
     apply find_firstn_filter.
   Qed.
 
+  (* the list matchRequirement filters: a sorted copy once it sorts, the input before *)
+  Definition match_input (l : list version) : list version :=
+    if match_sorts C then sort_versions C O l else l.
+
+  Lemma match_input_perm l : Permutation (match_input l) l.
+  Proof. unfold match_input. destruct (match_sorts C); auto. apply sort_versions_perm. Qed.
+
   Lemma match_generic_spec sys req l :
     N.eqb sys sys_npm = false ->
-    match_generic O sys req l = filter (satisfies sys req) l.
+    match_generic C O sys req l = filter (satisfies sys req) (match_input l).
   Proof.
-    intros H. unfold match_generic, satisfies. rewrite H.
+    intros H. unfold match_generic, satisfies, match_input. rewrite H.
     destruct (o_constraint O sys req); auto.
   Qed.
 
@@ -382,7 +420,7 @@ Section WithOracle.
      (constraints of every system, and string requirements outside npm) *)
   Lemma match_requirement_exact rk l v :
     (N.eqb (pk_sys (vk_pkg rk)) sys_npm = true -> o_constraint O sys_npm (vk_ver rk) = true) ->
-    In v (match_requirement O rk l) <-> In v l /\ satisfies (pk_sys (vk_pkg rk)) (vk_ver rk) v = true.
+    In v (match_requirement C O rk l) <-> In v l /\ satisfies (pk_sys (vk_pkg rk)) (vk_ver rk) v = true.
   Proof.
     intros Hc. unfold match_requirement.
     destruct (N.eqb (pk_sys (vk_pkg rk)) sys_npm) eqn:E.
@@ -390,14 +428,17 @@ Section WithOracle.
       rewrite filter_In. split; intros [H1 H2]; split; auto.
       + eapply Permutation_in; [apply sort_npm_perm|]; auto.
       + eapply Permutation_in; [symmetry; apply sort_npm_perm|]; auto.
-    - rewrite match_generic_spec by auto. apply filter_In.
+    - rewrite match_generic_spec by auto. rewrite filter_In.
+      split; intros [H1 H2]; split; auto.
+      + eapply Permutation_in; [apply match_input_perm|]; auto.
+      + eapply Permutation_in; [symmetry; apply match_input_perm|]; auto.
   Qed.
 
   (* an npm requirement that is not a range: the first version, in npm order, whose string
      or one of whose tags equals it; nothing when there is none *)
   Lemma match_npm_exact_string req l :
     o_constraint O sys_npm req = false ->
-    match_npm O req l = firstn 1 (filter (npm_exact req) (sort_npm O l)).
+    match_npm C O req l = firstn 1 (filter (npm_exact req) (sort_npm C O l)).
   Proof.
     intros H. rewrite match_npm_spec, H. f_equal.
     apply filter_ext. intros v. unfold satisfies. rewrite H, N.eqb_refl. auto.
@@ -470,16 +511,17 @@ Proof. intros H. unfold sort_deps. rewrite H. auto. Qed.
 (* ====================================================================== *)
 (* statements assembled for Properties/C12.v *)
 Section Assembled.
+  Variable C : mcfg.
   Variable O : oracle.
 
   (* ascending npm order: semver then spelling, unparsable after parsable, then the
-     repositioning of the version whose tags contain the text latest *)
+     repositioning of the version tagged latest *)
   Lemma sort_npm_spec l :
     cmp_laws (npm_parses O) (o_compare O sys_npm) ->
     exists base,
       Permutation base l /\ StronglySorted (npm_le O) base /\
       (forall a b, npm_le O a b -> o_parses O sys_npm (ver b) = true -> o_parses O sys_npm (ver a) = true) /\
-      sort_npm O l = reposition O base.
+      sort_npm C O l = reposition C O base.
   Proof.
     intros HL. exists (isort (npm_less O) l). repeat split.
     - apply isort_perm.
@@ -487,18 +529,23 @@ Section Assembled.
     - apply npm_le_parsable_first.
   Qed.
 
+  (* once repaired, the version that is repositioned is one that carries the tag latest *)
+  Lemma has_latest_exact v :
+    latest_exact C = true -> has_latest C v = existsb (bytes_eqb s_latest) (split_on 44 (tags v)).
+  Proof. intros H. unfold has_latest. rewrite H. auto. Qed.
+
   Lemma match_npm_perm req l l' :
     cmp_laws (npm_parses O) (o_compare O sys_npm) ->
-    NoDup (map ver l) -> Permutation l l' -> match_npm O req l = match_npm O req l'.
+    NoDup (map ver l) -> Permutation l l' -> match_npm C O req l = match_npm C O req l'.
   Proof.
-    intros HL ND Hp. unfold match_npm. rewrite (sort_npm_perm_unique O HL l l' ND Hp). auto.
+    intros HL ND Hp. unfold match_npm. rewrite (sort_npm_perm_unique C O HL l l' ND Hp). auto.
   Qed.
 
   Lemma match_requirement_npm_perm rk l l' :
     N.eqb (pk_sys (vk_pkg rk)) sys_npm = true ->
     cmp_laws (npm_parses O) (o_compare O sys_npm) ->
     NoDup (map ver l) -> Permutation l l' ->
-    match_requirement O rk l = match_requirement O rk l'.
+    match_requirement C O rk l = match_requirement C O rk l'.
   Proof.
     intros Hs HL ND Hp. unfold match_requirement. rewrite Hs.
     rewrite (match_npm_perm (vk_ver rk) l l' HL ND Hp). auto.
@@ -506,16 +553,25 @@ Section Assembled.
 
   (* a match over a slice that is in ascending order is in ascending order *)
   Lemma match_generic_sorted sys req l :
-    StronglySorted (gen_le O sys) l -> StronglySorted (gen_le O sys) (match_generic O sys req l).
+    match_sorts C = false ->
+    StronglySorted (gen_le C O sys) l -> StronglySorted (gen_le C O sys) (match_generic C O sys req l).
   Proof.
-    intros H. unfold match_generic. destruct (o_constraint O sys req); apply filter_sorted; auto.
+    intros M H. unfold match_generic. rewrite M. destruct (o_constraint O sys req); apply filter_sorted; auto.
+  Qed.
+
+  Lemma sort_versions_gen_eq sys l :
+    N.eqb sys sys_npm = false -> Forall (fun v => v_sys v = sys) l ->
+    sort_versions C O l = isort (gen_less C O sys) l.
+  Proof.
+    intros Hn H. destruct l as [|v0 t]; [reflexivity|]. unfold sort_versions.
+    inversion H; subst. rewrite Hn. auto.
   Qed.
 
   Lemma sort_versions_gen_spec sys v0 t :
     v_sys v0 = sys -> N.eqb sys sys_npm = false ->
     cmp_laws (fun s => o_parses O sys s = true) (o_compare O sys) ->
     Forall (gen_parses O sys) (v0 :: t) ->
-    Permutation (sort_versions O (v0 :: t)) (v0 :: t) /\ StronglySorted (gen_le O sys) (sort_versions O (v0 :: t)).
+    Permutation (sort_versions C O (v0 :: t)) (v0 :: t) /\ StronglySorted (gen_le C O sys) (sort_versions C O (v0 :: t)).
   Proof.
     intros Hs Hn HL HP. split; [apply sort_versions_perm|].
     unfold sort_versions. rewrite Hs, Hn. apply isort_gen_sorted; auto.
@@ -525,16 +581,37 @@ Section Assembled.
     N.eqb sys sys_npm = false ->
     cmp_laws (fun s => o_parses O sys s = true) (o_compare O sys) ->
     Forall (fun v => v_sys v = sys) l ->
-    Forall (gen_parses O sys) l -> NoDup (map ver l) -> no_equal_distinct O sys l ->
-    Permutation l l' -> sort_versions O l = sort_versions O l'.
+    Forall (gen_parses O sys) l -> NoDup (map ver l) -> separated C O sys l ->
+    Permutation l l' -> sort_versions C O l = sort_versions C O l'.
   Proof.
     intros Hn HL Hsys HP ND NE Hp.
     assert (Hsys' : Forall (fun v => v_sys v = sys) l') by (eapply Permutation_Forall; eauto).
-    destruct l as [|a t], l' as [|b t']; auto.
-    - apply Permutation_nil in Hp. discriminate.
-    - symmetry in Hp. apply Permutation_nil in Hp. discriminate.
-    - unfold sort_versions. inversion Hsys; inversion Hsys'; subst.
-      rewrite H5, Hn. apply isort_gen_perm_unique; auto.
+    rewrite (sort_versions_gen_eq sys l), (sort_versions_gen_eq sys l') by auto.
+    apply isort_gen_perm_unique; auto.
+  Qed.
+
+  (* matchRequirement once it sorts a copy: whatever the order of the input, the result is
+     in ascending order ... *)
+  Lemma match_generic_sorts sys req l :
+    match_sorts C = true -> N.eqb sys sys_npm = false ->
+    cmp_laws (fun s => o_parses O sys s = true) (o_compare O sys) ->
+    Forall (fun v => v_sys v = sys) l -> Forall (gen_parses O sys) l ->
+    StronglySorted (gen_le C O sys) (match_generic C O sys req l).
+  Proof.
+    intros M Hn HL Hsys HP. rewrite match_generic_spec by auto. unfold match_input. rewrite M.
+    apply filter_sorted. rewrite (sort_versions_gen_eq sys l) by auto. apply isort_gen_sorted; auto.
+  Qed.
+
+  (* ... and does not depend on that order *)
+  Lemma match_generic_perm sys req l l' :
+    match_sorts C = true -> N.eqb sys sys_npm = false ->
+    cmp_laws (fun s => o_parses O sys s = true) (o_compare O sys) ->
+    Forall (fun v => v_sys v = sys) l -> Forall (gen_parses O sys) l ->
+    NoDup (map ver l) -> separated C O sys l -> Permutation l l' ->
+    match_generic C O sys req l = match_generic C O sys req l'.
+  Proof.
+    intros M Hn HL Hsys HP ND Sep Hp. rewrite !match_generic_spec by auto. unfold match_input. rewrite M.
+    rewrite (sort_versions_gen_perm_unique sys l l'); auto.
   Qed.
 End Assembled.
 
@@ -567,17 +644,23 @@ Proof. apply core_laws. apply (core_weaken (fun _ => True)); [intros; exact I | 
 Definition w_a : version := mk_ver sys_pypi [49; 46; 48] [].          (* 1.0 *)
 Definition w_b : version := mk_ver sys_pypi [49; 46; 48; 46; 48] [].  (* 1.0.0 *)
 
-(* F-C12-1: without the side condition SortVersions depends on the order of its input *)
+(* F-C12-1: without the tie-break and without the side condition SortVersions depends on the
+   order of its input; with the tie-break it does not *)
 Lemma sort_tie_witness :
   Permutation [w_a; w_b] [w_b; w_a] /\ NoDup (map ver [w_a; w_b]) /\
-  sort_versions tie_oracle [w_a; w_b] <> sort_versions tie_oracle [w_b; w_a].
+  sort_versions cfg_old tie_oracle [w_a; w_b] <> sort_versions cfg_old tie_oracle [w_b; w_a].
 Proof.
   split; [apply perm_swap|]. split.
   - repeat constructor; simpl; intuition discriminate.
   - vm_compute. discriminate.
 Qed.
 
-(* F-C12-1b: MatchRequirement outside npm returns the matches in input order *)
+Lemma sort_tie_repaired :
+  sort_versions cfg_repaired tie_oracle [w_a; w_b] = [w_a; w_b] /\
+  sort_versions cfg_repaired tie_oracle [w_b; w_a] = [w_a; w_b].
+Proof. split; reflexivity. Qed.
+
+(* F-C12-1b: MatchRequirement outside npm returned the matches in input order *)
 Definition w_req : vkey := {| vk_pkg := {| pk_sys := sys_maven; pk_name := [112] |}; vk_type := vt_requirement; vk_ver := [91;48;44;41] |}.
 Definition w_m1 : version := mk_ver sys_maven [49; 46; 48] [].   (* 1.0 *)
 Definition w_m2 : version := mk_ver sys_maven [48; 46; 57] [].   (* 0.9 *)
@@ -585,16 +668,21 @@ Definition w_m2 : version := mk_ver sys_maven [48; 46; 57] [].   (* 0.9 *)
 Lemma match_raw_witness :
   Permutation [w_m1; w_m2] [w_m2; w_m1] /\ NoDup (map ver [w_m1; w_m2]) /\
   no_equal_distinct all_oracle sys_maven [w_m1; w_m2] /\
-  match_requirement all_oracle w_req [w_m1; w_m2] = [w_m1; w_m2] /\
-  match_requirement all_oracle w_req [w_m2; w_m1] = [w_m2; w_m1] /\
-  gen_cmp all_oracle sys_maven w_m2 w_m1 = (-1)%Z.
+  match_requirement cfg_old all_oracle w_req [w_m1; w_m2] = [w_m1; w_m2] /\
+  match_requirement cfg_old all_oracle w_req [w_m2; w_m1] = [w_m2; w_m1] /\
+  gen_cmp cfg_old all_oracle sys_maven w_m2 w_m1 = (-1)%Z.
 Proof.
   split; [apply perm_swap|]. split; [repeat constructor; simpl; intuition discriminate|].
   split; [|repeat split].
   intros a b Ha Hb E. simpl in E. apply bytes_compare_eq in E. auto.
 Qed.
 
-(* F-C12-2: a version whose tag list does not hold the tag latest is moved last *)
+Lemma match_raw_repaired :
+  match_requirement cfg_repaired all_oracle w_req [w_m1; w_m2] = [w_m2; w_m1] /\
+  match_requirement cfg_repaired all_oracle w_req [w_m2; w_m1] = [w_m2; w_m1].
+Proof. split; reflexivity. Qed.
+
+(* F-C12-2: a version whose tag list does not hold the tag latest was moved last *)
 Definition s_notlatest : bytes := [110;111;116] ++ s_latest.
 Definition w_n1 : version := mk_ver sys_npm [49] [(ver_tags, s_notlatest)].
 Definition w_n2 : version := mk_ver sys_npm [50] [].
@@ -602,14 +690,21 @@ Definition w_n2 : version := mk_ver sys_npm [50] [].
 Lemma latest_substring_witness :
   existsb (bytes_eqb s_latest) (split_on 44 (tags w_n1)) = false /\
   npm_cmp all_oracle w_n1 w_n2 = (-1)%Z /\
-  sort_npm all_oracle [w_n1; w_n2] = [w_n2; w_n1].
+  sort_npm cfg_old all_oracle [w_n1; w_n2] = [w_n2; w_n1].
 Proof. repeat split. Qed.
+
+Lemma latest_exact_repaired :
+  sort_npm cfg_repaired all_oracle [w_n1; w_n2] = [w_n1; w_n2].
+Proof. reflexivity. Qed.
 
 (* the hypotheses of the npm statements are satisfiable by non-trivial lists: version 1 is
    tagged latest and therefore comes last, whatever the order of the input *)
 Definition w_l1 : version := mk_ver sys_npm [49] [(ver_tags, s_latest)].
 Definition w_n3 : version := mk_ver sys_npm [51] [].
-Lemma npm_example :
-  NoDup (map ver [w_n3; w_l1; w_n2]) /\ sort_npm all_oracle [w_n3; w_l1; w_n2] = [w_n2; w_n3; w_l1] /\
-  sort_npm all_oracle [w_l1; w_n2; w_n3] = [w_n2; w_n3; w_l1].
-Proof. split; [repeat constructor; simpl; intuition discriminate | repeat split]. Qed.
+Lemma npm_example C :
+  NoDup (map ver [w_n3; w_l1; w_n2]) /\ sort_npm C all_oracle [w_n3; w_l1; w_n2] = [w_n2; w_n3; w_l1] /\
+  sort_npm C all_oracle [w_l1; w_n2; w_n3] = [w_n2; w_n3; w_l1].
+Proof.
+  split; [repeat constructor; simpl; intuition discriminate|].
+  destruct C as [[] m t]; repeat split.
+Qed.
